@@ -797,7 +797,7 @@ func Execute(id, tier string, seed int64, verbose bool) int {
 	}
 	if len(unconfirmed) > 0 {
 		for _, u := range unconfirmed {
-			fmt.Printf("INCONCLUSIVE property=%s unlocked shared store not confirmed by the race detector: %s\n", id, u)
+			fmt.Printf("INCONCLUSIVE property=%s monitor finding not confirmed by its native replay (race detector / stack limit / deadline): %s\n", id, u)
 		}
 		code = 2
 	}
